@@ -433,3 +433,56 @@ def r13e(ctx: Ctx, fq: str = "cirkit.symbolic.functional.evidence") -> list[Ob]:
     if not out:
         out.append(unres("R13e", fq, "observation-lookup", "no ConstantParameter(value=..) built in evidence", f.loc))
     return out
+
+
+# ------------------------------------------------------------------------------------------ R13f
+def r13f(ctx: Ctx, modules: tuple[str, ...] = ("cirkit.templates",)) -> list[Ob]:
+    """R13f -- block slices of a flattened table follow its generator order.
+
+    ``[f(a, b) for a in A for b in B]`` lists its elements A-major: the elements of one ``a`` are
+    ``len(B)`` consecutive entries.  A use site that takes ``T[i * K : (i + 1) * K]`` reads block i of
+    size K: that is 'the entries of the i-th outer element' only if the *inner* generator ranges over
+    K elements.  Un-nesting ``[[.. for _ in range(rank)] for i, dim in enumerate(modes)]`` by keeping
+    the textual order of the two ``for`` clauses makes the table rank-major while the slices still
+    assume mode-major: each block mixes the cores of different variables."""
+    out: list[Ob] = []
+    n_fn = 0
+    for f in ctx.repo.iter_functions():
+        if not f.module.name.startswith(modules):
+            continue
+        n_fn += 1
+        ld = LocalDefs(f.node)
+        for n in ast.walk(f.node):
+            if not (isinstance(n, ast.Subscript) and isinstance(n.slice, ast.Slice) and isinstance(n.value, ast.Name)):
+                continue
+            lo, hi = n.slice.lower, n.slice.upper
+            if not (isinstance(lo, ast.BinOp) and isinstance(lo.op, ast.Mult) and isinstance(hi, ast.BinOp) and isinstance(hi.op, ast.Mult)):
+                continue
+            # i * K : (i + 1) * K   (either operand order)
+            def factor(e: ast.BinOp) -> set[str]:
+                return {unparse(e.left), unparse(e.right)}
+            common = factor(lo) & factor(hi)
+            if not common:
+                continue
+            K = sorted(common)[0]
+            defs = ld.defs.get(n.value.id, [])
+            comps = [d for d in defs if isinstance(d, ast.ListComp) and len(d.generators) == 2]
+            if not comps:
+                continue
+            site = f"{f.module.relpath}:{n.lineno}"
+            for d in comps:
+                inner = d.generators[1].iter
+                inner_n = None
+                if isinstance(inner, ast.Call) and isinstance(inner.func, ast.Name) and inner.func.id == "range" and len(inner.args) == 1:
+                    inner_n = unparse(inner.args[0])
+                outer = d.generators[0].iter
+                outer_n = unparse(outer.args[0]) if isinstance(outer, ast.Call) and isinstance(outer.func, ast.Name) and outer.func.id == "range" and len(outer.args) == 1 else None
+                inst = f"block-slice:{n.value.id}"
+                if inner_n == K:
+                    out.append(ok("R13f", f.qualname, inst, f"blocks of {K} entries = the inner generator range({K})", site))
+                elif outer_n == K:
+                    out.append(viol("R13f", f.qualname, inst, f"`{unparse(n)[:60]}` reads blocks of {K} consecutive entries, but `{n.value.id}` is built with `for .. in range({K})` as the *outer* generator: the table is {K}-major, so a block holds entries of different inner elements (the cores of different modes), not the {K} entries of one", site))
+                else:
+                    out.append(unres("R13f", f.qualname, inst, f"block size {K} could not be related to the generators of `{n.value.id}`", site))
+    out.append(ok("R13f", "cirkit.templates", "block-slices", f"{n_fn} template functions scanned", "", nontrivial=False))
+    return out
